@@ -17,8 +17,10 @@ import (
 	"os"
 	"regexp"
 	"sort"
+	"strconv"
 	"strings"
 	"sync"
+	"sync/atomic"
 	"time"
 
 	"verif/harness/engines/chsql"
@@ -244,6 +246,39 @@ func genReq(r *rand.Rand, db *logq.DB, o logq.GenOpts, kind int) logq.Request {
 // random filter and the trace ids carried over from earlier portions
 var portionVar = regexp.MustCompile(`cityHash64\(trace_id\) % [0-9]+\) == \([0-9]+\)|unhex\('[0-9a-fA-F]*'\)(, ?unhex\('[0-9a-fA-F]*'\))*`)
 
+// dedupDisjuncts: "x or y or y" means "x or y". The attribute pre-filter of a TraceQL plan gains one more copy of
+// `or ((key) == ('<aggregated attribute>'))` with every execution of the plan object (the meaning stays the same, which is
+// all the property asks of a re-execution); identical neighbouring disjuncts are read as one.
+func dedupDisjuncts(s string) string {
+	for {
+		t := repeatedDisjunct.ReplaceAllString(s, "$1")
+		if t == s {
+			return s
+		}
+		s = t
+	}
+}
+
+// Go's regexp has no back-references: the repeated text is found by scanning
+var repeatedDisjunct = regexpDup{}
+
+type regexpDup struct{}
+
+var keyDisjunct = regexp.MustCompile(` or \(\(key\) == \('[^']*'\)\)`)
+
+func (regexpDup) ReplaceAllString(s, _ string) string {
+	locs := keyDisjunct.FindAllStringIndex(s, -1)
+	for i := 1; i < len(locs); i++ {
+		a, b := locs[i-1], locs[i]
+		if a[1] == b[0] && s[a[0]:a[1]] == s[b[0]:b[1]] {
+			return s[:b[0]] + s[b[1]:]
+		}
+	}
+	return s
+}
+
+var portionMod = regexp.MustCompile(`cityHash64\(trace_id\) % ([0-9]+)\)`)
+
 func Child(c *run.Ctx, name string) {
 	var cfg childCfg
 	run.ChildCfg(&cfg)
@@ -358,24 +393,69 @@ func Child(c *run.Ctx, name string) {
 					byShape := map[string]int{}
 					var shapes []string
 					for _, st := range s1[1:] {
-						sh := portionVar.ReplaceAllString(st, "#")
+						sh := dedupDisjuncts(portionVar.ReplaceAllString(st, "#"))
 						if byShape[sh] == 0 {
 							shapes = append(shapes, sh)
 						}
 						byShape[sh]++
 					}
-					// every statement kind must occur once per portion; a kind that occurs once while another occurs per portion is a changed statement
+					// every statement kind must occur once per portion: the number of portions is the modulus of the random
+					// filter, and a text that occurs a number of times that is not a multiple of it belongs to a portion
+					// whose statement differs from the others
 					maxN := 0
 					for _, n := range byShape {
 						maxN = max(maxN, n)
 					}
+					portions := 0
+					for _, st := range s1[1:] {
+						if m := portionMod.FindStringSubmatch(st); m != nil {
+							portions, _ = strconv.Atoi(m[1])
+							break
+						}
+					}
 					for _, sh := range shapes {
-						if byShape[sh] != maxN && maxN > 1 && strings.Contains(sh, "tempo_traces_attrs_gin") {
+						if !strings.Contains(sh, "tempo_traces_attrs_gin") {
+							continue
+						}
+						if (byShape[sh] != maxN && maxN > 1) || (portions > 1 && byShape[sh]%portions != 0) {
 							c.Violation("traceql/portion-statement-changes", fmt.Sprintf("TraceQL %s processed in portions: the statement of one portion differs from the others in more than its random filter (%d shapes among %d statements), e.g. %s", q, len(shapes), len(s1)-1, clip(sh, 300)),
 								map[string]any{"q": q, "complexity": complexity, "sql": s1})
 							break
 						}
 					}
+				}
+			}
+			if gi%8 == 2 {
+				// two portioned searches with nothing in common at the same time: each must issue exactly the statements
+				// it issues on its own (told apart by the attribute each of them names)
+				qa, qb := `{.onlya="va"} | count() > 1`, `{.onlyb="vb" && duration > 1s}`
+				refA, _ := tq.search(qa, 25000000)
+				refB, _ := tq.search(qb, 25000000)
+				all := tq.searchTogether([]string{qa, qb}, 25000000)
+				var gotA, gotB []string
+				for _, st := range all {
+					hasA, hasB := strings.Contains(st, "onlya"), strings.Contains(st, "onlyb")
+					switch {
+					case hasA && !hasB:
+						gotA = append(gotA, st)
+					case hasB && !hasA:
+						gotB = append(gotB, st)
+					case hasA && hasB:
+						c.Violation("traceql/concurrent-searches-share-a-statement", fmt.Sprintf("two TraceQL searches run at the same time: one statement carries conditions of both: %s", clip(st, 400)), map[string]any{"qa": qa, "qb": qb})
+					}
+				}
+				norm := func(l []string) []string {
+					o := make([]string, len(l))
+					for i, x := range l {
+						o[i] = dedupDisjuncts(x)
+					}
+					sort.Strings(o)
+					return o
+				}
+				c.Floor("TraceQL searches translated while another was between its portions", 0, 1)
+				if !eqs(norm(gotA), norm(refA)) || !eqs(norm(gotB), norm(refB)) {
+					c.Violation("traceql/statements-differ-under-concurrent-searches", fmt.Sprintf("TraceQL %s and %s processed in portions at the same time: the first issued %d statements (%d on its own), the second %d (%d on its own); %s",
+						qa, qb, len(gotA), len(refA), len(gotB), len(refB), firstDiff(norm(refA), norm(gotA))+" / "+firstDiff(norm(refB), norm(gotB))), map[string]any{"qa": qa, "qb": qb, "together": all})
 				}
 			}
 			if i < 6 {
@@ -465,11 +545,21 @@ type traceRig struct {
 	mu         sync.Mutex
 	complexity int64
 	first      bool
+	conc       atomic.Int64 // > 0: concurrent searches, every complexity probe is answered with this value
 }
 
 func newTraceRig() *traceRig {
 	t := &traceRig{}
 	t.sess = sqldrv.NewSession("c14-trace", func(ctx context.Context, q string) (*sqldrv.Rows, error) {
+		if c := t.conc.Load(); c > 0 {
+			// concurrent searches: the complexity probe is recognised by its text, every other statement takes a few
+			// milliseconds, so that the requests are between their portions at the same time
+			if strings.Contains(q, "as _count") {
+				return sqldrv.NewRows([]string{"c"}, [][]driver.Value{{c}}), nil
+			}
+			time.Sleep(3 * time.Millisecond)
+			return sqldrv.NewRows([]string{"a", "b", "c", "d", "e", "f", "g", "h"}, nil), nil
+		}
 		t.mu.Lock()
 		defer t.mu.Unlock()
 		if t.first && t.complexity > 0 {
@@ -512,6 +602,35 @@ func (t *traceRig) search(q string, complexity int64) ([]string, int) {
 	u := t.rd.Server.URL + "/api/search?" + url.Values{"q": {q}, "start": {"1700000000"}, "end": {"1700003600"}, "limit": {"20"}}.Encode()
 	req, _ := http.NewRequest("GET", u, nil)
 	return t.do(req, complexity)
+}
+
+// searchTogether runs the searches at the same time (all of them portioned) and returns every statement issued.
+func (t *traceRig) searchTogether(qs []string, complexity int64) []string {
+	t.conc.Store(complexity)
+	defer t.conc.Store(0)
+	from := t.sess.LogLen()
+	var wg sync.WaitGroup
+	for _, q := range qs {
+		wg.Add(1)
+		go func(q string) {
+			defer wg.Done()
+			u := t.rd.Server.URL + "/api/search?" + url.Values{"q": {q}, "start": {"1700000000"}, "end": {"1700003600"}, "limit": {"20"}}.Encode()
+			cl := http.Client{Timeout: 20 * time.Second}
+			if resp, err := cl.Get(u); err == nil {
+				io.Copy(io.Discard, resp.Body)
+				resp.Body.Close()
+			}
+		}(q)
+	}
+	wg.Wait()
+	var out []string
+	for _, s := range t.sess.Statements(from) {
+		if strings.Contains(s.SQL, "FROM settings") || strings.HasPrefix(strings.TrimSpace(s.SQL), "SHOW TABLES") {
+			continue
+		}
+		out = append(out, s.SQL)
+	}
+	return out
 }
 
 func (t *traceRig) post(path, body string) ([]string, int) {
